@@ -34,6 +34,10 @@ def gen_lines(rng, cls="plain", max_measures=6):
     wav_ids = [b36(rng.randint(1, 1295)) for _ in range(rng.randint(1, 8))]
     lnobj = rng.choice(["ZZ", "ZZ", "AA", "0Z"])
     wav_ids = [w for w in wav_ids if w != lnobj] or ["01"]
+    if rng.random() < 0.3:
+        # ids are written the same way in the header and in the data; letters may be lower case
+        wav_ids = [w.lower() if rng.random() < 0.7 else w for w in wav_ids]
+        wav_ids = list(dict.fromkeys(w for w in wav_ids if w.upper() != lnobj.upper())) or ["01"]
     undefined_ids = [i for i in ("02", "XY", "7K") if i not in wav_ids and i != lnobj]
     use_ln = cls != "no_lnobj"
     header = [("PLAYER", "1"), ("GENRE", rng.choice(["Trance", "J-POP", "a b c"])),
